@@ -131,6 +131,14 @@ NAMESPACES = {'Lemmas.MiniPyFuel': 'Bridge.Py',
               'Lemmas.RegexPbn': 'Bridge.RegexPbn', 'Lemmas.RegexHands': 'Bridge.RegexHands',
               'Lemmas.RegexConnect': 'Bridge.RegexConnect', 'Lemmas.RegexConnectB': 'Bridge.RegexConnect', 'Translated.ConnectInfo': 'Bridge.Translated.ConnectInfo',
               'Translated.ThreadsSeatE': 'Bridge.Translated.SeatE',
+              'Lemmas.RegexMsgClient': 'Bridge.RegexMsgClient', 'Lemmas.RegexMsgClientB': 'Bridge.RegexMsgClient',
+              'Translated.ClientParsersB': 'Bridge.Translated.ClientParsers', 'Translated.ClientParsersC': 'Bridge.Translated.ClientParsers',
+              'Translated.ClientParsersD': 'Bridge.Translated.ClientParsers',
+              'Translated.ThreadsClientE': 'Bridge.Translated.ClientE', 'Translated.ThreadsClientF': 'Bridge.Translated.ClientE',
+              'Lemmas.RegexMsgBidA': 'Bridge.RegexMsgBid', 'Lemmas.RegexMsgBidB': 'Bridge.RegexMsgBid', 'Lemmas.RegexMsgBidC': 'Bridge.RegexMsgBid',
+              'Lemmas.RegexMsgBidD': 'Bridge.RegexMsgBid',
+              'Translated.MsgParsersA': 'Bridge.Translated.MsgParsers', 'Translated.MsgParsersC': 'Bridge.Translated.MsgParsers',
+              'Translated.MsgParsersD': 'Bridge.Translated.MsgParsers', 'Translated.ThreadsMainE': 'Bridge.Translated.MainE',
               'Translated.HandsPbn': 'Bridge.Translated.HandsPbn', 'Translated.HandsPbnClosed': 'Bridge.Translated.HandsPbn',
               # the theorem families about the translated THREAD programs live in their own namespaces
               'Translated.ThreadsMainA': 'Bridge.Translated.MainA', 'Translated.ThreadsMainB': 'Bridge.Translated.MainB',
